@@ -8,7 +8,7 @@ Import ListNotations.
 From GMQ Require Import Base.Bytes Codec.Desc Codec.Prim Codec.Value Codec.MethodCodec Codec.Header Codec.Frame Codec.Records
      Codec.SpecCheck Codec.Codec.
 From GMQ Require Import Codec.gen.MethodsGen Codec.gen.TagsGen Codec.gen.ConstGen Codec.gen.SpecGen.
-From GMQ Require Import Proofs.CodecPrimProofs Proofs.CodecValueProofs Proofs.CodecMethodProofs Proofs.CodecGenProofs.
+From GMQ Require Import Proofs.CodecPrimProofs Proofs.CodecValueProofs Proofs.CodecMethodProofs Proofs.CodecRecordProofs Proofs.CodecGenProofs.
 Open Scope N_scope.
 Open Scope list_scope.
 
@@ -74,6 +74,40 @@ Theorem C12_method_roundtrip : forall d m vals,
 Proof. exact gen_method_roundtrip. Qed.
 Print Assumptions C12_method_roundtrip.
 
+(* ---- content header: every subset of the optional properties, arbitrary field values ---- *)
+Theorem C12_generated_properties_wf : wf_props_desc props_fields props_read props_write = true.
+Proof. exact gen_props_desc_wf. Qed.
+Print Assumptions C12_generated_properties_wf.
+
+Theorem C12_header_roundtrip : forall d h, wf_header_gen d h = true ->
+  exists b, encode_header d h = Some b /\ forall rest, decode_header d (b ++ rest) = Ok (h, rest).
+Proof. exact gen_header_roundtrip. Qed.
+Print Assumptions C12_header_roundtrip.
+
+(* ---- frames: every payload below 2^32 - 1 bytes, whatever the allocation strategy of ReadFrame ---- *)
+Theorem C12_frame_roundtrip : forall f rest, wf_frame f = true -> decode_frame (encode_frame f ++ rest) = Ok (f, rest).
+Proof. exact gen_frame_roundtrip. Qed.
+Print Assumptions C12_frame_roundtrip.
+
+(* ---- storage records ---- *)
+Theorem C12_message_record_roundtrip : forall d m, wf_message_gen d m = true ->
+  exists b, encode_message d m = Some b /\ forall rest, decode_message d (b ++ rest) = Ok (m, rest).
+Proof. exact gen_message_roundtrip. Qed.
+Print Assumptions C12_message_record_roundtrip.
+
+Theorem C12_queue_record_roundtrip : forall q rest, wf_queue q = true -> dec_queue (enc_queue q ++ rest) = Ok (q, rest).
+Proof. exact queue_roundtrip. Qed.
+Print Assumptions C12_queue_record_roundtrip.
+
+Theorem C12_exchange_record_roundtrip : forall e rest, wf_exchange e = true -> dec_exchange (enc_exchange e ++ rest) = Ok (e, rest).
+Proof. exact exchange_roundtrip. Qed.
+Print Assumptions C12_exchange_record_roundtrip.
+
+Theorem C12_binding_record_roundtrip : forall d b, wf_binding_gen d b = true ->
+  exists bs, encode_binding d b = Some bs /\ forall rest, decode_binding d (bs ++ rest) = Ok (b, rest).
+Proof. exact gen_binding_roundtrip. Qed.
+Print Assumptions C12_binding_record_roundtrip.
+
 (* ---- the grammar ---- *)
 Theorem C12_grammar_methods : spec_available = true /\ methods_match_spec all_methods spec_methods = true.
 Proof. exact gen_methods_match_spec. Qed.
@@ -97,6 +131,15 @@ Example C12_example_nested_table :
   let t := [([107], VTab TTablePtr [([120], VNum TInt32 1); ([121], VArr [VStr TString [97; 98]; VNil])]); ([122], VNum TBool 1)] in
   wf_table rd_gen wr_gen DRabbit t = true /\ wf_table rd_gen wr_gen D091 t = true /\
   encode_table DRabbit t = Some [0; 0; 0; 33; 1; 107; 70; 0; 0; 0; 22; 1; 120; 73; 0; 0; 0; 1; 1; 121; 120; 0; 0; 0; 8; 83; 0; 0; 0; 2; 97; 98; 86; 1; 122; 116; 1].
+Proof. vm_compute. repeat split; reflexivity. Qed.
+
+Example C12_example_header_and_message :
+  let h := {| h_class := 60; h_weight := 0; h_body_size := 3;
+              h_props := [Some (MStr [116]); None; Some (MTab [([107], VStr TString [118])]); Some (MNum 2);
+                          None; None; None; None; None; Some (MNum 1700000000); None; None; None; None] |} in
+  let m := {| msg_id := 7; msg_header := h; msg_exchange := [101]; msg_rk := [114; 107];
+              msg_body := [{| f_type := 3; f_channel := 1; f_payload := [1; 2] |}; {| f_type := 3; f_channel := 1; f_payload := [3] |}] |} in
+  wf_header_gen DRabbit h = true /\ wf_message_gen DRabbit m = true /\ wf_message_gen D091 m = true.
 Proof. vm_compute. repeat split; reflexivity. Qed.
 
 Example C12_example_method :
